@@ -20,7 +20,7 @@ type StepCap struct{ What string }
 // Bounded-liveness parameters (DESIGN §3.6).
 const (
 	LiveB        = 1000   // further Reads / items allowed after a fault began
-	AbsoluteRead = 200000 // Reads per stream, absolute
+	AbsoluteRead = 200000 // Reads per stream, absolute (plus three per input byte)
 )
 
 // Fault is a non-EOF read failure after Offset bytes.
@@ -84,7 +84,7 @@ func (s *Stream) note(n int) {
 // Read implements io.Reader.
 func (s *Stream) Read(p []byte) (int, error) {
 	s.Reads++
-	if s.Reads > AbsoluteRead {
+	if s.Reads > AbsoluteRead+3*len(s.Data) {
 		panic(StepCap{"reads-absolute"})
 	}
 	if s.fired {
